@@ -18,6 +18,16 @@ from ..harness import CheckBase
 NS = [1, 2, 3, 5, 16]
 
 
+def _slot_queue(repo):
+    """The object's connection-slot queue, found by what it is (an asyncio/queue Queue held by the Repository object),
+    not by its name; None if the object keeps its slots some other way (the behavioural probe then decides alone)."""
+    import queue
+    if os.environ.get('VF_C09_NOQUEUE'):          # self-test knob: let the behavioural probe decide alone
+        return None
+    found = [v for v in vars(repo).values() if isinstance(v, (asyncio.Queue, queue.Queue)) and hasattr(v, '_queue')]
+    return found[0] if len(found) == 1 else None
+
+
 class Check(CheckBase):
     property_id = 'C09'
     evaluations_counter = 'executions'
@@ -48,10 +58,14 @@ class Check(CheckBase):
                 'kind': kinds[i % len(kinds)],
                 'seed': r.randrange(1 << 30),
                 'N': NS[(i // len(kinds)) % len(NS)],
-                'flavour': 'async' if (i // 2) % 2 else 'sync',
+                'flavour': 'async' if ((i // 2) + (i // len(kinds))) % 2 else 'sync',
                 'shape': ['small-shared', 'few-large', 'mixed'][i % 3],
                 'p': [0.02, 0.06, 0.15][(i // 3) % 3],
                 'settings': gen.gen_settings(r, chunker=r.choice([(8, 64), (4, 64), (16, 257), (12, 12), (64, 1024)])),
+                'probe': kinds[i % len(kinds)] != 'roundtrip' or i % 3 == 0,
+                # half of the failing operations are followed AT ONCE by another operation on the same object, while
+                # transfers of the failed one may still be under way (slow transfers): the in-flight bound covers both
+                'continue': kinds[i % len(kinds)] != 'roundtrip' and (i // (2 * len(kinds))) % 2 == 0,
             })
         # sync-stress: tiny trees, long delays at synchronisation calls and a slow producer (slow disk), so that
         # a polling consumer is preempted between two of its checks for a time comparable to its poll period
@@ -97,6 +111,8 @@ class Check(CheckBase):
             unmet.append('too few synchronisation-point events observed')
         if c.get('slot_checks', 0) < (200 if q else 5000):
             unmet.append('too few slot checks')
+        if c.get('slot_probes_reached_N', 0) + c.get('slot_queue_inspections', 0) < (100 if q else 2500):
+            unmet.append('connection slots were observed too rarely (neither the queue nor the behavioural probe)')
         if c.get('proc_exit_runs', 0) < (8 if q else 100):
             unmet.append('too few process-level termination probes')
         return unmet[:6]
@@ -165,9 +181,27 @@ class Check(CheckBase):
         ref_store = membackend.Store(0)
         ref_be = membackend.make_backend(ref_store, 'sync')
 
+        pre_objects = {}
+
         async def reference():
             _, key, _ = await rep.init(ref_be, case['settings'], concurrent=1)
             repo = await rep.unlocked(ref_be, key, concurrent=1)
+            if case.get('continue'):
+                # an older snapshot of other data, present from the start: something to restore right after a failure
+                src0 = os.path.join(scratch, 'src0')
+                os.makedirs(src0)
+                pr = random.Random(case['seed'] + 13)
+                mx = case['settings']['chunking']['max_length']
+                for i in range(N + 3):
+                    p0 = os.path.join(src0, f'o{i}')
+                    data = pr.randbytes(mx + 2 + i)
+                    with open(p0, 'wb') as fh:
+                        fh.write(data)
+                    os.utime(p0, ns=(1, 1_500_000_000_000_000_000 + len(data)))
+                    truth[os.path.realpath(p0)] = data
+                with rep.capture():
+                    await repo.snapshot(paths=[Path(src0)])
+                pre_objects.update(ref_store.snapshot_objects())
             with rep.capture():
                 return key, await repo.snapshot(paths=[Path(src)])
         # the reference run is watched too: a command that cannot finish even sequentially is a violation, not a
@@ -202,6 +236,7 @@ class Check(CheckBase):
         # -- perturbed runs on a fresh store that shares config (same keys => same names/digests) ---------
         store = membackend.Store(case['seed'])
         store.objects['config'] = ref_store.objects['config']
+        store.objects.update(pre_objects)
         store.latency = membackend.random_latency(case['seed'], scale=0.002)
         store.in_flight_limit = N
         be = membackend.make_backend(store, flavour)
@@ -210,6 +245,19 @@ class Check(CheckBase):
                                    slow={case['slow']: (0.3, 0.02)} if case.get('slow') else None, victim=case.get('victim'))
             store.latency = None
         else:
+            if case.get('continue'):
+                # the transfers that overlap the failing call are slow (0.6 s), so that they are still under way when the
+                # operation has failed and the next one starts; `slow_window` is set where the fault is planned
+                ordinal = {'n': 0}
+                slow_window = {'lo': None, 'hi': None, 'at': None}
+
+                def continue_latency(op, name, idx):
+                    if op not in ('upload_stream', 'download_stream') or slow_window['lo'] is None:
+                        return 0
+                    k = ordinal['n']
+                    ordinal['n'] += 1
+                    return 0.6 if slow_window['lo'] <= k <= slow_window['hi'] and k != slow_window['at'] else 0
+                store.latency = continue_latency
             pert = sched.Perturber(case['seed'], p=case['p'], sync_p=0.3, sync_sleep=0.001)
         missing = pert.missing_closures() if False else []
         fault_rng = random.Random(case['seed'] ^ 0x5EED)
@@ -242,30 +290,103 @@ class Check(CheckBase):
                     calm += 1
                 else:
                     calm = 0
-                cur = (store.calls, len(store.log), pert.events, repo._slots.qsize(), len(pending))
+                cur = (store.calls, len(store.log), pert.events, len(pending))
                 still = still + 1 if cur == last else 0
                 last = cur
                 await asyncio.sleep(0.005)
             counters['slot_checks'] += 1
-            have = sorted(repo._slots._queue)
-            expect_slots = getattr(repo, '_vf_initial_slots', list(range(2, N + 2)))
+            q = _slot_queue(repo)
+            have = sorted(q._queue) if q is not None else None
+            expect_slots = getattr(repo, '_vf_initial_slots', None)
+            if have is not None:
+                counters['slot_queue_inspections'] = counters.get('slot_queue_inspections', 0) + 1
             if calm < 3:
                 viol(f'after {label} the operation\'s own tasks/threads never come to rest and nothing moves',
                      in_flight=store.in_flight, stacks=_trim(sched.stack_signature()), tasks=_task_chains())
-            elif have != expect_slots:
+            elif have is not None and expect_slots is not None and have != expect_slots:
                 viol(f'connection slots after {label}: {have}, expected {expect_slots} (the slots the object started with)',
                      in_flight=store.in_flight, stacks=_trim(sched.stack_signature()), tasks=_task_chains())
+            elif calm >= 3 and case.get('probe'):
+                await probe(repo, label, probe_kind)
+
+        probes = [0]
+
+        async def probe(repo, label, kind):
+            """Behavioural form of 'all slots are available again', independent of how slots are represented: the SAME
+            Repository object must still be able to hold N transfers in flight at once.  Transfers of one kind wait at a
+            rendezvous in the store until N of them have arrived (logical condition; the 6 s timeout only ends a failed
+            probe).  If it fails, a FRESH object is probed the same way: only a difference between the two is a violation."""
+            async def one(obj):
+                probes[0] += 1
+                if kind == 'upload':
+                    psrc = os.path.join(scratch, f'probe{probes[0]}')
+                    os.makedirs(psrc)
+                    mx = case['settings']['chunking']['max_length']
+                    pr = random.Random(case['seed'] * 7 + probes[0])
+                    for i in range(N + 3):
+                        with open(os.path.join(psrc, f'p{i}'), 'wb') as f:
+                            f.write(pr.randbytes(mx + 1 + i))
+                    target, op = N, 'upload_stream'
+                else:
+                    nchunks = len([n for n in store.names('data/')])
+                    target, op = min(N, nchunks), 'download_stream'
+                    if target < 1:
+                        return None
+                store.rendezvous = rv = {'op': op, 'target': target, 'arrived': 0, 'met': False, 'timeout': 6.0}
+                saved_latency, store.latency = store.latency, None
+                saved_objects, saved_faults, store.faults = store.snapshot_objects(), store.faults, []
+                try:
+                    with rep.capture():
+                        if kind == 'upload':
+                            await obj.snapshot(paths=[Path(psrc)])
+                        else:
+                            await obj.restore(path=Path(os.path.join(scratch, f'probe-target{probes[0]}')))
+                except BaseException as e:
+                    rv['error'] = f'{type(e).__name__}: {e}'[:200]
+                finally:
+                    store.rendezvous = None
+                    store.latency, store.faults = saved_latency, saved_faults
+                    with store.lock:                       # the probe leaves no trace in the repository
+                        store.objects.clear()
+                        store.objects.update(saved_objects)
+                return rv
+            rv = await one(repo)
+            if rv is None:
+                return
+            counters['slot_probes'] = counters.get('slot_probes', 0) + 1
+            counters[f'slot_probes_{kind}'] = counters.get(f'slot_probes_{kind}', 0) + 1
+            if rv['met'] and 'error' not in rv:
+                counters['slot_probes_reached_N'] = counters.get('slot_probes_reached_N', 0) + 1
+                return
+            fresh = await rep.unlocked(be, key, concurrent=N)
+            rv2 = await one(fresh)
+            if rv2 is not None and rv2['met'] and 'error' not in rv2:
+                viol(f'after {label} the same Repository object can no longer keep {rv["target"]} {rv["op"]} transfers in flight '
+                     f'(only {rv["arrived"]} arrived' + (f', then {rv["error"]}' if 'error' in rv else '') +
+                     '); a fresh object can: connection slots were not all returned')
+            else:
+                counters['slot_probes_inapplicable'] = counters.get('slot_probes_inapplicable', 0) + 1
 
         outcome = {}
 
+        probe_kind = 'upload'
+
         async def op_snapshot(fail):
+            nonlocal probe_kind
+            probe_kind = 'upload'
             repo = await rep.unlocked(be, key, concurrent=N)
-            repo._vf_initial_slots = sorted(repo._slots._queue)
-            if len(repo._vf_initial_slots) != N:
-                viol(f'a fresh Repository(concurrent={N}) starts with {len(repo._vf_initial_slots)} connection slots')
+            q = _slot_queue(repo)
+            if q is not None:
+                repo._vf_initial_slots = sorted(q._queue)
+                if len(repo._vf_initial_slots) != N:
+                    viol(f'a fresh Repository(concurrent={N}) starts with {len(repo._vf_initial_slots)} connection slots')
             if fail:
                 store.faults = [{'op': fault_rng.choice(['upload_stream', 'exists', 'upload_stream']),
                                  'nth': fault_rng.randrange(0, 12), 'count': None}]
+                if case.get('continue'):
+                    store.faults[0]['op'] = 'upload_stream'
+                    ordinal['n'] = 0
+                    slow_window.update(lo=store.faults[0]['nth'] - N, hi=store.faults[0]['nth'] + N, at=store.faults[0]['nth'])
             try:
                 with rep.capture():
                     res = await repo.snapshot(paths=[Path(src)])
@@ -274,14 +395,40 @@ class Check(CheckBase):
                 outcome['snapshot'] = ('raised', e)
             finally:
                 store.faults = []
+            if fail and case.get('continue'):
+                try:
+                    with rep.capture():
+                        if fault_rng.random() < 0.7:
+                            await repo.restore(path=Path(os.path.join(scratch, 'after-failed-snapshot')))
+                        else:
+                            src2 = os.path.join(scratch, 'src2')
+                            os.makedirs(src2, exist_ok=True)
+                            pr = random.Random(case['seed'] + 11)
+                            mx = case['settings']['chunking']['max_length']
+                            for i in range(N + 3):
+                                with open(os.path.join(src2, f'c{i}'), 'wb') as fh:
+                                    fh.write(pr.randbytes(mx + 1 + i))
+                            await repo.snapshot(paths=[Path(src2)])
+                    outcome['continued'] = ('returned', None)
+                except BaseException as e:
+                    outcome['continued'] = ('raised', e)
+                counters['continued_after_failure'] = counters.get('continued_after_failure', 0) + 1
             await check_slots(repo, 'snapshot ' + outcome['snapshot'][0])
 
         async def op_restore(fail, target):
+            nonlocal probe_kind
+            probe_kind = 'download'
             repo = await rep.unlocked(be, key, concurrent=N)
-            repo._vf_initial_slots = sorted(repo._slots._queue)
+            q = _slot_queue(repo)
+            if q is not None:
+                repo._vf_initial_slots = sorted(q._queue)
             if fail:
                 store.faults = [{'op': fault_rng.choice(['download_stream', 'download_stream', 'download']),
                                  'nth': fault_rng.randrange(0, 10), 'count': None, 'prefix': None}]
+                if case.get('continue'):
+                    store.faults[0]['op'] = 'download_stream'
+                    ordinal['n'] = 0
+                    slow_window.update(lo=store.faults[0]['nth'] - N, hi=store.faults[0]['nth'] + N, at=store.faults[0]['nth'])
             try:
                 with rep.capture():
                     res = await repo.restore(path=Path(target))
@@ -290,6 +437,14 @@ class Check(CheckBase):
                 outcome['restore'] = ('raised', e)
             finally:
                 store.faults = []
+            if fail and case.get('continue'):
+                try:
+                    with rep.capture():
+                        await repo.restore(path=Path(target + '-again'))
+                    outcome['continued'] = ('returned', None)
+                except BaseException as e:
+                    outcome['continued'] = ('raised', e)
+                counters['continued_after_failure'] = counters.get('continued_after_failure', 0) + 1
             await check_slots(repo, 'restore ' + outcome['restore'][0])
 
         def run_threaded(coro_fn, *a):
@@ -345,6 +500,11 @@ class Check(CheckBase):
                              got=[m['files'].get(p) for p in bad][:1], want=[ref_manifest['files'].get(p) for p in bad][:1])
                     refd = {l for l in store.objects if l.startswith('data/')}
                     counters['chunk_objects'] = len(refd)
+            if outcome.get('continued', ('returned',))[0] == 'raised':
+                e = outcome.pop('continued')[1]
+                viol(f'a command started on the same Repository object right after a failed snapshot raised {type(e).__name__}: {e}',
+                     trace=_tb(e))
+            outcome.pop('continued', None)
             if store.violations:
                 viol(store.violations[0]['what'] + ' (during snapshot)', event=store.violations[0])
                 store.violations.clear()
